@@ -190,7 +190,7 @@ fn run_case<C: Suite>(c: &Case) -> Outcome {
                         }
                     }
                     if semantic && !exact {
-                        o.fail(format!("{tag}/MACHINERY-predicate"), format!("{ctx}: semantic predicate true but VSS equation false"));
+                        o.fail(format!("{tag}/honest-share-fails-independent-vss-equation"), format!("{ctx}: the share an honest sender addressed to this participant does not satisfy G*share = sum_k i^k C_k (evaluated independently) against that sender's own commitment"));
                     }
                     if exact && !semantic {
                         o.count("accidental_share_matches", 1);
